@@ -40,11 +40,18 @@ RED = dict(IntCls=["min32", "max32", "max32p1"], BigCls=["min64", "max64"], StrC
 RED2 = dict(IntCls=["min32", "min32m1"], BigCls=["max64"], StrCls=["f400", "f401"])
 
 
-def C(name, mincols, maxcols, cls, maxbad, upd, maxmut, maxlife):
+def C(name, mincols, maxcols, cls, maxbad, upd, maxmut, maxlife, types=("INT", "BIGINT", "BOOLEAN", "VARCHAR"), wrong=True):
     d = dict(name=name, MinCols=mincols, MaxCols=maxcols, MaxBad=maxbad, WithUpd=upd, MaxMut=maxmut, MaxLife=maxlife,
-             WithNull=True, WithWrong=True, Types=["INT", "BIGINT", "BOOLEAN", "VARCHAR"])
+             WithNull=True, WithWrong=wrong, Types=list(types))
     d.update(cls)
     return d
+
+
+# fixed-width columns only, some of them NULL in the stored row, then an UPDATE of a later column (the row's layout depends on
+# which earlier columns are NULL)
+FIXED = dict(IntCls=["1"], BigCls=["2p32"], StrCls=["l1"])
+# texts that differ only in the blanks inside them, inserted and assigned one after the other in one session
+TWINS = dict(IntCls=["1"], BigCls=["0"], StrCls=["sp3", "sp4"])
 
 
 MC = {
@@ -53,6 +60,8 @@ MC = {
         C("two-col", 2, 2, FULL, 2, True, 1, 2),
         C("two-col-upd", 2, 2, RED2, 1, True, 2, 1),
         C("three-col", 3, 3, RED2, 1, False, 1, 1),
+        C("three-fixed-upd", 3, 3, FIXED, 0, True, 2, 0, types=("INT", "BIGINT", "BOOLEAN"), wrong=False),
+        C("blank-twins", 1, 1, TWINS, 0, True, 3, 1, types=("VARCHAR",), wrong=False),
     ],
     "thorough": [
         C("one-col-deep", 1, 1, FULL, 1, True, 3, 2),
@@ -62,6 +71,9 @@ MC = {
         C("three-col", 3, 3, RED, 1, False, 1, 2),
         C("three-col-full", 3, 3, FULL, 1, False, 1, 0),
         C("four-col", 4, 4, RED2, 1, False, 1, 1),
+        C("three-fixed-upd", 3, 3, FIXED, 0, True, 2, 2, types=("INT", "BIGINT", "BOOLEAN"), wrong=False),
+        C("four-fixed-upd", 4, 4, dict(IntCls=["1"], BigCls=["2p32"], StrCls=["l1"]), 0, True, 2, 0, types=("INT", "BIGINT"), wrong=False),
+        C("blank-twins", 1, 2, TWINS, 0, True, 3, 2, types=("VARCHAR",), wrong=False),
     ],
 }
 
